@@ -1,19 +1,19 @@
 import StunVerif.Spec.Msg
 import StunVerif.Lemmas.Bytes
+import StunVerif.Lemmas.BE
 namespace StunVerif
 open Spec
 
-theorem paddedAttrLen_eq (n : Nat) : paddedAttrLen n = n + pad4 n := by
+theorem paddedAttrLen_eq_add (n : Nat) : paddedAttrLen n = n + pad4 n := by
   unfold paddedAttrLen pad4; split <;> omega
 
-theorem pad4_lt (n : Nat) : pad4 n < 4 := by unfold pad4; omega
 
 theorem Tlv.enc_length (t : Tlv) : t.enc.length = 4 + t.value.length + t.pad.length := by
   simp [Tlv.enc]; omega
 
 theorem Tlv.paddedLen_raw (t : Tlv) (hw : t.wf) : t.raw.paddedLen = t.enc.length := by
   obtain ⟨_, h2, h3⟩ := hw
-  rw [Tlv.enc_length, RawAttr.paddedLen, paddedAttrLen_eq]
+  rw [Tlv.enc_length, RawAttr.paddedLen, paddedAttrLen_eq_add]
   simp only [Tlv.raw]
   rw [Nat.mod_eq_of_lt h2, h3]; omega
 
@@ -52,7 +52,7 @@ theorem raw_step_ok {data : Bytes} {a : RawAttr} (h : rawFromBytes data = .ok a)
       have hmod : rest.length % 65536 ≤ rest.length := Nat.mod_le _ _
       have hvl : (rest.take (be16 l0 l1)).length = be16 l0 l1 := by
         rw [List.length_take]; omega
-      simp only [RawAttr.paddedLen, hvl, Nat.mod_eq_of_lt hb, paddedAttrLen_eq,
+      simp only [RawAttr.paddedLen, hvl, Nat.mod_eq_of_lt hb, paddedAttrLen_eq_add,
         List.length_cons] at hp ⊢
       have hpl := pad4_lt (be16 l0 l1)
       refine ⟨⟨be16 t0 t1, rest.take (be16 l0 l1),
